@@ -155,6 +155,27 @@ impl RwsToString for bool {
     fn rws_to_string(&self) -> String { self.to_string() }
 }
 
+// String::from(&str) and str::to_owned / String::to_owned: the same text, owned (common spellings of to_string)
+#[verifier::external_body]
+pub fn rws_string_from(s: &str) -> (r: String)
+    ensures r@ == s@,
+{ String::from(s) }
+pub trait RwsToOwned {
+    spec fn own_view(&self) -> Seq<char>;
+    fn rws_to_owned(&self) -> (r: String)
+        ensures r@ == self.own_view();
+}
+impl RwsToOwned for str {
+    open spec fn own_view(&self) -> Seq<char> { self@ }
+    #[verifier::external_body]
+    fn rws_to_owned(&self) -> String { self.to_owned() }
+}
+impl RwsToOwned for String {
+    open spec fn own_view(&self) -> Seq<char> { self@ }
+    #[verifier::external_body]
+    fn rws_to_owned(&self) -> String { self.to_owned() }
+}
+
 // R-FMT: format!("..{}..", a, b) == concatenation of the literal pieces and Display of the arguments
 pub trait RwsDisp {
     spec fn disp(&self) -> Seq<char>;
